@@ -549,6 +549,16 @@ def _minmax(eng, args, kw, op):
         if xs is None:
             if isinstance(args[0], SSet) and args[0].base is None:
                 xs = [SV(a, 'int') if not isinstance(a, int) else a for a in args[0].adds]
+            elif isinstance(args[0], SSet):
+                # axiom: max(S) is an element of S and an upper bound (min: lower bound)
+                AXIOMS_USED.add('max/min of a non-empty set is a member and a bound')
+                st = args[0]
+                mx = fresh_int('extremum')
+                t = z3.Int(fresh_name('t'))
+                bound = (t <= mx.t) if op == '>' else (t >= mx.t)
+                eng.pc.append(eng.set_has(st, mx.t))
+                eng.pc.append(z3.ForAll([t], z3.Implies(eng.set_has(st, t), bound)))
+                return mx
             else:
                 raise EngineError('min/max over symbolic collection')
     else:
